@@ -27,9 +27,18 @@ Fixpoint nm_bytes (len : nat) (v : N) (acc : name) : name :=
   end.
 Definition nm (len v : N) : name := nm_bytes (N.to_nat len) v [].
 
+(* component dnsnet: one observation of the node under test inside a network of real nodes, after a handshake ran:
+   the tunnels established in its main hostmap (certificate name and certificate addresses of each), and for every
+   name of the scenario the answer to an A and an AAAA query: (qtype, queried name, rcode, answered address values) *)
+Record nstep := mkNs {
+  ns_established : list (name * list addr);
+  ns_answers : list (N * name * N * list N)
+}.
+
 Inductive case :=
 | CDns (on : bool) (id : N) (cname : name) (addrs : list addr)
-       (m4 m6 : list (name * N)) (self : name) (steps : list dstp).
+       (m4 m6 : list (name * N)) (self : name) (steps : list dstp)
+| CNet (self : name) (self_addrs : list addr) (steps : list nstep).
 
 Definition ans_eqb (a b : answer) : bool :=
   (fst (fst a) =? fst (fst b)) && name_eqb (snd (fst a)) (snd (fst b)) && (snd a =? snd b).
@@ -130,9 +139,45 @@ Fixpoint walk (ms : dstate) (certs : list cert) (m4 m6 : list (name * N)) (self 
 Fixpoint dedup (l : list N) : list N :=
   match l with [] => [] | x :: r => if existsb (N.eqb x) r then dedup r else x :: dedup r end.
 
+(* ---- dnsnet: the property on the implementation's observations alone ------------------------------------------
+   Every address the responder answers for a name is an address listed in a certificate carrying that name (up to
+   case) with which a tunnel was established in the main hostmap (a completed, authenticated handshake), or in my
+   own certificate; of the family the record type says; NXDOMAIN comes without records.  In particular a name whose
+   handshakes were all refused (wrong responder, untrusted CA, blocklisted, claiming my address) gets no answer, and
+   an address that was only dialled - not certified - is never answered. *)
+Definition net_answer_ok (certs : list (name * list addr)) (a : N * name * N * list N) : bool :=
+  let '(qt, qn, rc, vals) := a in
+  ((rc =? 0) || ((rc =? rcode_nx) && match vals with [] => true | _ => false end)) &&
+  ((qt =? ty_A) || (qt =? ty_AAAA)) &&
+  forallb (fun v =>
+    existsb (fun c : name * list addr =>
+      name_eqb (lower (fst c ++ [dot])) (lower qn) &&
+      existsb (fun x : addr => Bool.eqb (fst x) (qt =? ty_A) && (snd x =? v)) (snd c)) certs) vals.
+
+(* code 1 (model side, weak): a name with an established tunnel whose certificate has an address of the family is
+   answered with something, as dns_add would have recorded *)
+Definition net_complete (est : list (name * list addr)) (answers : list (N * name * N * list N)) : bool :=
+  forallb (fun c : name * list addr =>
+    forallb (fun a : N * name * N * list N =>
+      let '(qt, qn, rc, vals) := a in
+      negb (name_eqb (lower (fst c ++ [dot])) (lower qn)) ||
+      negb (existsb (fun x : addr => Bool.eqb (fst x) (qt =? ty_A)) (snd c)) ||
+      match vals with [] => false | _ => true end) answers) est.
+
+Fixpoint net_walk (certs : list (name * list addr)) (steps : list nstep) : list N :=
+  match steps with
+  | [] => []
+  | s :: r =>
+      let certs' := ns_established s ++ certs in
+      flag 2 (forallb (net_answer_ok certs') (ns_answers s)) ++
+      flag 1 (net_complete (ns_established s) (ns_answers s)) ++
+      net_walk certs' r
+  end.
+
 Definition check_case (c : case) : list N :=
   match c with
   | CDns on id cname addrs m4 m6 self steps =>
       let s0 := dinit on id cname addrs in
       dedup (flag 1 (dump_eqb s0 m4 m6 self) ++ walk s0 [(id, cname, addrs)] m4 m6 self steps)
+  | CNet self self_addrs steps => dedup (net_walk [(self, self_addrs)] steps)
   end.
